@@ -11,7 +11,8 @@ RULE = ('mask() over signatures of U({a,b,c},3) x n in 0..len+2 x every duplicat
         'of the names, checks mask(sig,0)==sig, mask(mask(sig,n),m)==mask(sig,n+m) and the hide_* rules. '
         'Non-trivial: every evaluated mask call; distinct by (sig, n, names, flags).')
 ASSUMPTIONS = ['names naming a positional-only parameter are excluded (stated)',
-               'with hide_* flags a raise is not constrained by the statement; only returned results are checked']
+               'with hide_* flags the outcome (returns / raises) must be that of the same mask without flags, except that under hide_args naming a positional-or-keyword parameter counts as a duplicate (the hidden *other may fill it)',
+               'a name listed twice must raise (no call passes one keyword twice)']
 
 
 def monitors(ctx):
@@ -23,7 +24,8 @@ def run(ctx):
     ctx.floor('C03.mask_calls', 2000)
     ctx.floor('C03.order_checked', 200)
     ctx.floor('C03.flag_soundness', 200)
-    w_alg.drive_mask(ctx, ctx.tier)
+    ctx.floor('C03.duplicate_names', 100)
+    w_alg.drive_mask(ctx, ctx.tier, dup=True)
 
 
 def replay(ctx, rec):
